@@ -58,6 +58,15 @@ func plan(tier string, seed int64) []driver.Case {
 			}
 		}
 	}
+	// time-driven operators with SHORT durations over a source whose teardown panics: after the
+	// (failed) release nothing may happen any more - no timer of the closed subscription fires
+	for _, t := range timedOps {
+		for _, how := range []string{"unsubscribe", "complete", "error"} {
+			for _, tdp := range []string{"0", "1"} {
+				cases = append(cases, driver.Case{ID: fmt.Sprintf("after-close/%s/%s/tdpanic=%s", t.name, how, tdp), P: map[string]string{"kind": "afterclose", "op": t.name, "how": how, "tdpanic": tdp}})
+			}
+		}
+	}
 	// (b) operator level, puppet-driven
 	for _, e := range catalog.All() {
 		if e.Flags.Has(catalog.Creation) {
@@ -80,7 +89,7 @@ func plan(tier string, seed int64) []driver.Case {
 		}
 		// multi-source operators: every non-empty subset of the sources has a teardown that panics;
 		// the other sources (and the panicking ones) are released exactly once all the same
-		if e.NSrc >= 2 && !e.Flags.Has(catalog.Blocks) {
+		if e.NSrc >= 1 && !e.Flags.Has(catalog.Blocks) {
 			for mask := 1; mask < 1<<e.NSrc; mask++ {
 				for _, end := range []string{"complete", "error", "unsub-harness"} {
 					for _, nv := range []int{0, 1} {
@@ -433,6 +442,129 @@ func runSubSpin(c driver.Case) driver.Result {
 	if lost+dup > 0 {
 		res.Verdict, res.Key = driver.Violated, "C03/subscription/teardown-count-when-add-races-"+via
 		res.Msg = fmt.Sprintf("%d rounds of %d Add call(s) racing %s: %d teardowns never ran, %d ran more than once; first: %s", rounds, adders, via, lost, dup, first)
+	}
+	return res
+}
+
+// timedOps: time-driven operators with durations of a few milliseconds (the catalogue uses 1 ms or
+// 1 h; here the timers must be able to fire shortly AFTER the subscription was closed).
+var timedOps = []struct {
+	name string
+	mk   func(o ro.Observable[int]) catalog.Pipeline
+}{
+	{"Timeout(4ms)", func(o ro.Observable[int]) catalog.Pipeline { return catalog.P(ro.Timeout[int](4 * time.Millisecond)(o)) }},
+	{"Delay(4ms)", func(o ro.Observable[int]) catalog.Pipeline { return catalog.P(ro.Delay[int](4 * time.Millisecond)(o)) }},
+	{"DelayEach(4ms)", func(o ro.Observable[int]) catalog.Pipeline { return catalog.P(ro.DelayEach[int](4 * time.Millisecond)(o)) }},
+	{"BufferWithTime(4ms)", func(o ro.Observable[int]) catalog.Pipeline { return catalog.P(ro.BufferWithTime[int](4 * time.Millisecond)(o)) }},
+	{"BufferWithTimeOrCount(3,4ms)", func(o ro.Observable[int]) catalog.Pipeline {
+		return catalog.P(ro.BufferWithTimeOrCount[int](3, 4*time.Millisecond)(o))
+	}},
+	{"SampleTime(4ms)", func(o ro.Observable[int]) catalog.Pipeline { return catalog.P(ro.SampleTime[int](4 * time.Millisecond)(o)) }},
+	{"ThrottleTime(4ms)", func(o ro.Observable[int]) catalog.Pipeline { return catalog.P(ro.ThrottleTime[int](4 * time.Millisecond)(o)) }},
+	{"TimeInterval", func(o ro.Observable[int]) catalog.Pipeline { return catalog.P(ro.TimeInterval[int]()(o)) }},
+	{"Timestamp", func(o ro.Observable[int]) catalog.Pipeline { return catalog.P(ro.Timestamp[int]()(o)) }},
+}
+
+// runAfterClose: one value, then the subscription ends (Unsubscribe, or the source's completion /
+// error); the source's teardown may panic. From the moment the closing call has returned, neither
+// the observer nor the dropped-notification / unhandled-error hooks may see anything that stems
+// from this subscription, and no library goroutine may remain - for longer than every timer of the
+// operator would need to fire.
+func runAfterClose(c driver.Case) driver.Result {
+	rec.ResetHooks()
+	before := snapshotIDs()
+	res := driver.Result{Verdict: driver.Held, Nontrivial: true, Sig: "afterclose/" + c.Get("op") + "/" + c.Get("how") + "/" + c.Get("tdpanic")}
+	var mk func(o ro.Observable[int]) catalog.Pipeline
+	for _, t := range timedOps {
+		if t.name == c.Get("op") {
+			mk = t.mk
+		}
+	}
+	s := src.New("s0")
+	if c.Get("tdpanic") == "1" {
+		s.PanicInTeardown = "teardown of the source panics"
+	}
+	r := rec.New(c.Get("op"))
+	sub := mk(s.Observable()).Subscribe(context.Background(), r, false)
+	what := fmt.Sprintf("%s over a source (teardown panics: %s), one value then %s", c.Get("op"), c.Get("tdpanic"), c.Get("how"))
+	call := func(f func()) bool {
+		st, _, _ := quiesce.Call(func() { defer func() { recover() }(); f() }, 10*time.Second)
+		return st == quiesce.Returned
+	}
+	ok := call(func() { s.Next(1) })
+	switch c.Get("how") {
+	case "unsubscribe":
+		ok = ok && call(func() { sub.Unsubscribe() })
+	case "complete":
+		ok = ok && call(func() { s.Complete() })
+	default:
+		ok = ok && call(func() { s.Error() })
+	}
+	if !ok {
+		return driver.Result{Verdict: driver.Inconclusive, Key: "call-did-not-return", Dirty: true}
+	}
+	// operators that deliver late (Delay, the buffers) finish their own business first
+	deadline := time.Now().Add(3 * time.Second)
+	// (until the observer has returned from its terminal callback: IsClosed() already reports true
+	// when the subscriber has only marked itself terminated)
+	terminalDone := func() bool {
+		ev := r.Events()
+		return len(ev) > 0 && ev[len(ev)-1].Kind != rec.Next
+	}
+	for c.Get("how") != "unsubscribe" && !terminalDone() && time.Now().Before(deadline) {
+		time.Sleep(500 * time.Microsecond)
+	}
+	func() { defer func() { recover() }(); sub.Unsubscribe() }()
+	// Phase 1, until the process is quiescent: goroutines of the operator are on their way out; a
+	// completion they still try to deliver on that way is dropped and tolerated, a VALUE or an ERROR is
+	// not (nothing may still be produced). Phase 2, from quiescence on for five times the longest
+	// timer: no goroutine was left running, so anything that happens now comes from a timer that was
+	// not stopped.
+	n0, nd0, u0 := r.Len(), len(rec.DroppedEvents()), rec.UnhandN.Load()
+	_, settled := quiesce.Settle(10 * time.Second)
+	nd1 := len(rec.DroppedEvents())
+	time.Sleep(20 * time.Millisecond)
+	quiesce.Settle(10 * time.Second)
+	var activity []string
+	for i, e := range rec.DroppedEvents()[nd0:] {
+		if nd0+i >= nd1 {
+			activity = append(activity, "dropped after quiescence: "+e.What)
+		} else if !strings.HasPrefix(e.What, "Complete") {
+			activity = append(activity, "dropped: "+e.What)
+		}
+	}
+	for _, e := range rec.UnhandledEvents() {
+		activity = append(activity, "unhandled error: "+e.What)
+	}
+	if int64(len(rec.UnhandledEvents())) <= u0 && rec.UnhandN.Load() == u0 {
+		// (the unhandled errors listed above were reported before the close: not counted)
+		var keep []string
+		for _, a := range activity {
+			if !strings.HasPrefix(a, "unhandled error") {
+				keep = append(keep, a)
+			}
+		}
+		activity = keep
+	}
+	res.Events = int64(r.Len()) + 2
+	res.Sample = map[string]any{"pipeline": c.Get("op"), "ending": c.Get("how"), "source_teardown_panics": c.Get("tdpanic") == "1", "trace": r.TraceString(), "source": s.Summary()}
+	if n := r.Len() - n0; n != 0 {
+		res.Verdict, res.Key = driver.Violated, "C03/"+c.Get("op")+"/delivery-after-close"
+		res.Msg = fmt.Sprintf("%s: %d notification(s) reached the observer after the subscription was closed; trace [%s]", what, n, r.TraceString())
+		return res
+	}
+	if len(activity) > 0 {
+		res.Verdict, res.Key = driver.Violated, "C03/"+c.Get("op")+"/activity-after-close"
+		res.Msg = fmt.Sprintf("%s: after the subscription was closed something of it was still at work: %v - a timer or goroutine was not released", what, activity)
+		return res
+	}
+	if !checkSources([]*src.Source{s}, what, c.Get("op"), &res) {
+		return res
+	}
+	if leaked := libGoroutinesSince(before); settled && len(leaked) > 0 {
+		res.Verdict, res.Key, res.Dirty = driver.Violated, "C03/"+c.Get("op")+"/goroutine-left-blocked-after-close", true
+		res.Msg = fmt.Sprintf("%s: %d goroutine(s) with library frames remain; first: [%s] %s", what, len(leaked), leaked[0].State, topLibFrame(leaked[0].Stack))
+		res.Witness = leaked[0].Stack
 	}
 	return res
 }
@@ -859,6 +991,8 @@ func runCase(c driver.Case) driver.Result {
 		return runSubRace(c)
 	case "subspin":
 		return runSubSpin(c)
+	case "afterclose":
+		return runAfterClose(c)
 	case "sync":
 		return runSync(c)
 	case "creation":
